@@ -41,7 +41,7 @@ Proof.
   intros I R K1 K2. destruct (C17_kv_gc_exact T now d I) as [_ H]. rewrite H, R. unfold collectable. rewrite K1, K2. reflexivity.
 Qed.
 (* ephemeral events are never queued for writing by add_event (they are only broadcast) *)
-Theorem C17_kv_ephemeral_not_stored valid now d raw :
+Theorem C17_kv_ephemeral_not_stored valid now d pending raw :
   is_ephemeral_kind (w_kind (ctor now raw)) = true -> valid (ctor now raw) = true ->
-  add_event valid now d raw = (AckTrue, true, None).
+  add_event valid now d pending raw = (AckTrue, true, None).
 Proof. intros E V. unfold add_event. rewrite V, E. reflexivity. Qed.
